@@ -46,7 +46,9 @@ func certBytes(t *rapid.T) ([]byte, []int) {
 	}
 }
 
-func identHot() []int { return []int{0, 31, 32, 255, 256, 351, 352, 383, 384, 385, 386, 387, 388, 389, 390} }
+func identHot() []int {
+	return []int{0, 31, 32, 255, 256, 351, 352, 383, 384, 385, 386, 387, 388, 389, 390}
+}
 
 // ValidFor draws a well-formed encoding suited to entry (plus its type
 // argument and a list of "hot" offsets: length, count and type fields).
